@@ -69,6 +69,10 @@ func parseInitialState(initialState string) (*model.CreateRequest, error) {
 		return nil, err
 	}
 
+	if createRequest.Operation != "" && createRequest.Operation != operation.TypeCreate {
+		return nil, errors.New("initial state is not a create request")
+	}
+
 	expected, err := canonicalizer.MarshalCanonical(createRequest)
 	if err != nil {
 		return nil, err
